@@ -140,7 +140,14 @@ func litmuses() []litmus {
 			var wg sync.WaitGroup
 			for i := 0; i < 2; i++ {
 				wg.Add(1)
-				go func() { defer wg.Done(); mu.Lock(); v := x; runtime.Gosched(); x = v + 1; mu.Unlock() }()
+				go func() {
+					defer wg.Done()
+					mu.Lock()
+					v := x
+					runtime.Gosched()
+					x = v + 1
+					mu.Unlock()
+				}()
 			}
 			wg.Wait()
 			return fmt.Sprint(x)
@@ -336,6 +343,19 @@ func litmuses() []litmus {
 			}
 			return fmt.Sprint(s)
 		}, []string{"3"}},
+		// two plain (unsynchronised) read-modify-writes: the update of one goroutine can be
+		// lost. Reachable in the model only because racy plain accesses become scheduling
+		// points (race-directed preemption, DESIGN §9.4).
+		{"plain-lost-update", func() string {
+			x := 0
+			done := make(chan struct{}, 2)
+			for i := 0; i < 2; i++ {
+				go func() { v := x; runtime.Gosched(); x = v + 1; done <- struct{}{} }()
+			}
+			<-done
+			<-done
+			return fmt.Sprint(x)
+		}, []string{"1", "2"}},
 		{"goexit-runs-defers", func() string {
 			done := make(chan string, 1)
 			go func() {
@@ -354,6 +374,21 @@ func sorted(m map[string]bool) []string {
 	}
 	sort.Strings(out)
 	return out
+}
+
+// explore runs one litmus under the model and collects the reachable outcomes.
+func explore(cfg vs.Config, l litmus, reach map[string]bool) vs.Stats {
+	return vs.Explore(cfg, func() (func(), func(*vs.End) (string, string)) {
+		res := "(did not finish)"
+		return func() { res = l.body() }, func(e *vs.End) (string, string) {
+			if len(e.Panics) > 0 {
+				reach["escaped-panic:"+e.Panics[0].Value] = true
+			} else {
+				reach[res] = true
+			}
+			return "", ""
+		}
+	})
 }
 
 func main() {
@@ -393,17 +428,18 @@ func main() {
 	for _, l := range ls {
 		reach := map[string]bool{}
 		l := l
-		st := vs.Explore(vs.Config{Name: l.name, Bound: 4}, func() (func(), func(*vs.End) (string, string)) {
-			res := "(did not finish)"
-			return func() { res = l.body() }, func(e *vs.End) (string, string) {
-				if len(e.Panics) > 0 {
-					reach["escaped-panic:"+e.Panics[0].Value] = true
-				} else {
-					reach[res] = true
-				}
-				return "", ""
+		cfg := vs.Config{Name: l.name, Bound: 4, Race: true, RacePoints: true, RaceAllSites: true}
+		var st vs.Stats
+		for restart := 0; ; restart++ {
+			st = explore(cfg, l, reach)
+			if len(st.NewRacy) == 0 || restart > 8 {
+				break
 			}
-		})
+			cfg.RacySites = append(cfg.RacySites, st.NewRacy...)
+			for k := range reach {
+				delete(reach, k)
+			}
+		}
 		total += st.Executions
 		model := sorted(reach)
 		status := "ok"
